@@ -489,7 +489,8 @@ def validate_translator(seed, n):
             post = cmh.add_linear(ex, st, sk, sb, z3.BitVecVal(v, 32))
             real = C.CountMinLinear(w, d)
             real.cms[:] = np.array(tab, np.uint32).reshape(d, w)
-            real.add(key, v)
+            # the jitted kernel itself (the wrapper's cap is a separate, engine-W obligation)
+            C._add_linear(real.cms, real.n_added_records, real.buckets, real.width, real.depth, real.uint_maxval, key, np.uint32(v))
             got_real = [int(x) for x in real.cms.flatten()] + [int(real.n_added())]
         else:
             cfg = rnd.choice(CONFIGS[bits])
@@ -509,7 +510,8 @@ def validate_translator(seed, n):
             for j, x in enumerate(dr):
                 real.rand_nums[j] = x
             real.rand_ptr = 0
-            real.add(key, v)
+            kern = C._add_log16 if bits == 16 else C._add_log8
+            kern(real.cms, real.n_added_records, real.buckets, real.width, real.depth, real.uint_maxval, real.num_reserved, real.base, real.rand_nums, np.uint64(0), key, np.uint64(v))
             got_real = [int(x) for x in real.cms.flatten()] + [int(real.n_added())]
         got_sym = []
         for c in list(post.heap[sk.cms.sid]) + [post.heap[sk.nar.sid][0]]:
